@@ -88,16 +88,25 @@ def harness_dir():
     return alt, os.path.join(BUILD, "harness-" + tag)
 
 
+def _ensure_locks(hdir):
+    """The harness resolves the same dependency versions as the repository: its Cargo.lock is a copy of the
+    repository's (committed under harness/ so that a snapshot of the repository without the git-ignored lock
+    file can be given it back)."""
+    repo_lock = os.path.join(REPO, "Cargo.lock")
+    committed = os.path.join(VERIF, "harness", "Cargo.lock")
+    dst = os.path.join(hdir, "Cargo.lock")
+    if not os.path.exists(repo_lock) and os.path.exists(committed) and REPO != "/repo":
+        shutil.copy(committed, repo_lock)
+    if not os.path.exists(dst):
+        shutil.copy(repo_lock if os.path.exists(repo_lock) else committed, dst)
+
+
 def build_harness():
     """(Re)build the in-process harness against /repo's working tree."""
     global HARNESS_BIN
     with BuildLock("harness"):
         hdir, tdir = harness_dir()
-        lock_src = os.path.join(REPO, "Cargo.lock")
-        lock_dst = os.path.join(hdir, "Cargo.lock")
-        # the harness resolves the same dependency versions as the repository
-        if not os.path.exists(lock_dst):
-            shutil.copy(lock_src, lock_dst)
+        _ensure_locks(hdir)
         cmd = ["cargo", "build", "--release", "--offline", "--target-dir", tdir]
         env = clean_env()
         _run_build(cmd, hdir, env, "harness")
@@ -107,6 +116,7 @@ def build_harness():
 def build_binary(variant="bin", extra_rustflags=""):
     """(Re)build the rapidquilt binary from /repo's working tree with the hook guard on."""
     with BuildLock(variant):
+        _ensure_locks(harness_dir()[0])
         target = os.path.join(BUILD, variant + _tag)
         env = clean_env({"RUSTFLAGS": ("--cfg %s %s" % (GUARD, extra_rustflags)).strip()})
         cmd = ["cargo", "build", "--release", "--offline", "--bin", "rapidquilt",
@@ -294,9 +304,7 @@ def build_harness_checked():
     """harness + libpatch with overflow checks and debug assertions on (arithmetic sanitizer)"""
     with BuildLock("harness"):
         hdir, tdir = harness_dir()
-        lock_dst = os.path.join(hdir, "Cargo.lock")
-        if not os.path.exists(lock_dst):
-            shutil.copy(os.path.join(REPO, "Cargo.lock"), lock_dst)
+        _ensure_locks(hdir)
         _run_build(["cargo", "build", "--profile", "checked", "--offline", "--target-dir", tdir], hdir, clean_env(), "harness (overflow-checks, debug-assertions)")
     return os.path.join(tdir, "checked", "rqh")
 
